@@ -434,6 +434,13 @@ run_override_case(True)
 for pair in (("e\u0301x", "zz"), ("\u212bng", "zz"), ("ko\u0308ln", "zz")):
     run_case(3, [(0, 1)], {0}, [], names_override=["A", pair[0], pair[1]])
     run_case(3, [(0, 1), (1, 2)], {0}, [("to", 1)], names_override=["A", pair[0], pair[1]])
+# redirect targets written with underscores, exactly as the destination's title was given to add_page (the two redirect
+# rules compare the stored strings).  Inclusion edges are left out here on purpose: a title stored with an underscore
+# cannot be looked up at all (lookups normalise underscores to blanks, add_page stores verbatim -- recorded under C10)
+for nm in (["A_b", "c_d"], ["new_box", "sh"], ["_x", "y_"]):
+    for reds in ([("to", 0)], [("from", 0)], [("to", 1)], [("to", 0), ("from", 1)], [("to", 0), ("to", "R0")]):
+        for fl in ({0}, {1}, set()):
+            run_case(2, [], fl, reds, names_override=nm)
 # case siblings whose upper-case form has the HIGHER code point (the includer is the lower-case one)
 for pair in (("ÿx", "Ÿx"), ("µ-box", "Μ-box"), ("lower", "Lower")):
     for inc in (1, 2):
